@@ -146,6 +146,28 @@ func (P *Program) resolveCtx(v ssa.Value, deep bool) ([]ssa.Value, map[ssa.Value
 					inHelper(x, rets, walk)
 					return
 				}
+				// at() with at one of several method values (sel.Pos, id.Pos handed down as func() token.Pos): what
+				// each of the bound methods returns - the method call inside go/ssa's wrapper, on the bound receiver
+				if x.Call.StaticCallee() == nil && !x.Call.IsInvoke() {
+					if cands := P.closureCandidates(x.Call.Value, 0); len(cands) > 1 {
+						all := true
+						for _, f := range cands {
+							if !isBoundWrapper(f) || len(f.Blocks) == 0 {
+								all = false
+							}
+						}
+						if all {
+							for _, f := range cands {
+								allInstrs(f, func(_ *ssa.BasicBlock, ins ssa.Instruction) {
+									if r, ok := ins.(*ssa.Return); ok && len(r.Results) == 1 {
+										walk(r.Results[0])
+									}
+								})
+							}
+							return
+						}
+					}
+				}
 			}
 			add(x)
 		case *ssa.Extract:
